@@ -83,7 +83,23 @@ ROLLUP_NAMES = ["Rss", "Pss", "Pss_Dirty", "Pss_Anon", "Pss_File", "Pss_Shmem", 
 COMMON_PATHS = [b"/usr/bin/python3.12", b"/usr/lib/libc.so.6", b"/usr/lib/libm.so.6", b"[heap]", b"[stack]"]
 FLAGS = [b"rd", b"wr", b"ex", b"sh", b"mr", b"mw", b"me", b"ms", b"gd", b"pf", b"dw", b"lo", b"io", b"sr", b"rr",
          b"dc", b"de", b"ac", b"nr", b"ht", b"sf", b"ar", b"wf", b"dd", b"sd", b"mm", b"hg", b"nh", b"mg", b"um", b"uw"]
-MEMTYPES_BAD = ["", "RSS", "foo", "rss ", "addr", "path", "private_dirty", "Rss"]
+MEMTYPES_BAD = ["", "RSS", "foo", "rss ", "addr", "path", "private_dirty", "Rss",
+                # near-misses of valid names, fields of OTHER named tuples (pmmap_*, svmem, pio, pcputimes), the tuple's own name
+                " rss", "rss\n", "rss\x00", "uss.", "uss,pss", "r", "rs", "rsss", "USS", "Pss", "swap ", "dirty_", "_rss", "rss_",
+                "size", "shared_clean", "referenced", "anonymous", "total", "available", "percent", "used", "free", "user", "system",
+                "read_bytes", "pfullmem", "pmem", "memory_info", "vms\t", "\u0440ss", "r\u0455s"]
+# attribute names of the namedtuple CLASS pfullmem that are not fields ('count', 'index', '_fields', '_asdict', '_make', '_replace',
+# '__len__', '__class__', '__doc__', …): filled in at run time from dir(pfullmem) (Impl.__init__). A validation through
+# hasattr(pfullmem, memtype) lets all of them through (seeded C13-4); the property promises ValueError for every unknown NAME.
+CLASS_ATTRS = []
+# arguments that are not str at all — outside the statement ("unknown field NAMES"), characterised: list membership is decided by
+# `==`, so the code as it is answers ValueError (C13_nonstr_memtype_ValueError); hasattr() would raise TypeError
+NONSTR = {"None": None, "3": 3, "3.5": 3.5, "True": True, "b'rss'": b"rss", "('rss',)": ("rss",), "['rss']": ["rss"], "{'rss'}": {"rss"},
+          "0": 0, "bytearray(b'uss')": bytearray(b"uss"), "('rss', 'vms')": ("rss", "vms")}
+
+
+def bad_memtypes():
+    return MEMTYPES_BAD + CLASS_ATTRS
 
 # call modes (goal: a method must answer the same whichever way it is reached)
 MODES = ["plain", "fresh", "oneshot", "warm", "as_dict", "iter", "twice", "after_b"]
@@ -197,7 +213,7 @@ def gen_case(rng, family, has_rollup_default):
         mode = rng.choices(["data", "enoent", "esrch"], [6, 2, 2])[0]
     pct = []
     for _ in range(3):
-        mt = rng.choice(PFULL_NAMES) if rng.random() < 0.85 else rng.choice(MEMTYPES_BAD)
+        mt = rng.choice(PFULL_NAMES) if rng.random() < 0.8 else rng.choice(bad_memtypes())
         r = rng.random()
         if r < 0.6:
             cached, vm = rng.choice([2**30, 16 * 2**30, 8_000_000_000, 2**53 + 1, 1, rng.randrange(1, 2**45)]), 0
@@ -219,6 +235,8 @@ def gen_case(rng, family, has_rollup_default):
         case["rollupHow"], case["rollupKV"] = gen_rollup_kv(rng, ms)
         if family == "rollup_record":
             case["hasRollup"], case["rollup"] = (True, "data") if rng.random() < 0.8 else (has_rollup, mode)
+    if rng.random() < 0.15:
+        case["pctNonStr"] = rng.sample(sorted(NONSTR), rng.randrange(1, 4))
     case["modes"] = gen_modes(rng, case)
     if rng.random() < 0.35:
         case["hist"], case["histModes"] = gen_hist(rng)
@@ -317,7 +335,7 @@ def gen_hist(rng):
         elif r < 0.5:
             steps.append({"op": "vm"})
         else:
-            mt = rng.choice(PFULL_NAMES) if rng.random() < 0.9 else rng.choice(MEMTYPES_BAD)
+            mt = rng.choice(PFULL_NAMES) if rng.random() < 0.85 else rng.choice(bad_memtypes())
             steps.append({"op": "pct", "memtype": mt})
     for st in steps:
         modes.append(pick_mode(rng, "pct", st.get("memtype")) if st["op"] == "pct" else None)
@@ -425,6 +443,7 @@ class Impl:
         self.orig_open = self.lx.open_binary
         self.used_modes = []
         self.world_changes = 0
+        CLASS_ATTRS[:] = sorted(a for a in dir(self.lx.pfullmem) if a not in self.lx.pfullmem._fields)
         self.fp.write("stat", "cpu  1 2 3 4 5 6 7 8 9 10\ncpu0 1 2 3 4 5 6 7 8 9 10\nbtime 1700000000\n")
 
     def close(self):
@@ -586,6 +605,13 @@ class Impl:
                 r = call(p, "pct", "memory_percent", () if m == "as_dict" else (q["memtype"],), {}, m, q["memtype"])
                 pct.append({"ok": r["value"]} if r["kind"] == "ok" else _exc(r))
             out["pct"] = pct
+            if case.get("pctNonStr"):
+                ps._TOTAL_PHYMEM = 2**30
+                ns = []
+                for tag in case["pctNonStr"]:
+                    r = fakeproc.outcome(p.memory_percent, NONSTR[tag])
+                    ns.append({"ok": repr(r["value"])[:80]} if r["kind"] == "ok" else _exc(r))
+                out["pctNonStr"] = ns
             if case.get("hist"):
                 out["hist"] = self.run_hist(case, hist_files or [], p, call)
         finally:
@@ -736,6 +762,13 @@ def compare_case(res, inp, impl, drv_out, findings=()):
         if not pct_equal(im, mo):
             res.disagree("model", inp, {"pct": im, "i": i}, {"pct": mo}, {"pct": sp}, note="memory_percent: implementation differs from the Lean model" + md)
             return "model"
+    # not-a-str arguments (characterisation, C13_nonstr_memtype_ValueError): ValueError, nothing else
+    for tag, im in zip(inp.get("pctNonStr") or [], impl.get("pctNonStr") or []):
+        if im != {"exc": "ValueError"}:
+            res.disagree("model", inp, {"pctNonStr": im, "arg": tag}, {"pctNonStr": {"exc": "ValueError"}}, None,
+                         note="memory_percent(%s): a non-str argument is not rejected with ValueError (characterised behaviour of "
+                              "`memtype not in list(pfullmem._fields)`)" % tag)
+            return "model"
     return compare_hist(res, inp, impl, drv_out, findings)
 
 
@@ -772,7 +805,7 @@ def compare_hist(res, inp, impl, drv_out, findings=()):
 
 
 def strip_case(c):
-    return {k: v for k, v in c.items() if k not in ("family", "rollupHow")}
+    return {k: v for k, v in c.items() if k not in ("family", "rollupHow", "pctNonStr")}
 
 
 def run_cases(ctx, impl, cases, res, tag_stats=True):
@@ -843,6 +876,11 @@ def record(res, c, o, im, kind):
             res.count("exc:%s:%s" % (k, v["exc"]))
     for v in im.get("pct", []):
         res.count("pct:" + ("exc:" + v["exc"] if "exc" in v else "ok"))
+    for q in c.get("pct", []):
+        if q["memtype"] in CLASS_ATTRS:
+            res.count("memtype:attribute-of-the-namedtuple-class-not-a-field")
+    for v in im.get("pctNonStr", []):
+        res.count("memtype:non-str:" + ("exc:" + v["exc"] if "exc" in v else "ok"))
     trivial = c["op"] == "case" and len(c["ms"]) == 0 and all("exc" not in im.get(k, {}) for k in ("maps",))
     res.case(_key(c), nontrivial=not trivial,
              sample={"family": fam, "mappings": len(c.get("ms", [])), "impl_full": im.get("full"),
@@ -939,7 +977,15 @@ def exhaustive_cases(impl):
     base = corpus(impl)[1]
     out = []
     totals = [(2**30, 0), (None, 2**30), (0, 2**30), (None, 0), (-5, 0), (2**53 + 1, 0)]
-    names = PFULL_NAMES + MEMTYPES_BAD
+    # EVERY attribute name of the namedtuple class that is not a field, every near-miss / foreign field name, every non-str
+    # argument: two total-memory configurations (cached / read from meminfo)
+    for cached, vm in ((2**30, 0), (None, 2**30)):
+        c = json.loads(json.dumps(base))
+        c["family"] = "exhaustive-bad-memtypes"
+        c["pct"] = [{"memtype": n, "cached": cached, "vmTotal": vm} for n in bad_memtypes()]
+        c["pctNonStr"] = sorted(NONSTR)
+        out.append(c)
+    names = PFULL_NAMES + MEMTYPES_BAD[:8]
     for i in range(0, len(names), 3):
         for cached, vm in totals:
             c = json.loads(json.dumps(base))
@@ -1189,7 +1235,7 @@ def correspond(ctx, res):
         raws, nl = raw_cases(ctx, impl, ctx.n(120, 3500))
         lines += nl
         lines += run_cases(ctx, impl, raw_corpus(impl) + raws, res)
-        res.exhaustive = ("%d enumerated cases: all 18 memtypes (10 valid, 8 invalid) x 6 total-memory configurations; all 16 "
+        res.exhaustive = ("%d enumerated cases: all 18 memtypes (10 valid, 8 invalid) x 6 total-memory configurations; EVERY non-field attribute name of the namedtuple class pfullmem (dir() at run time) + 40 near-misses / foreign field names + 11 non-str arguments x 2 total-memory configurations; all 16 "
                           "permission strings; hasRollup x {data, enoent, esrch} x zombie x {one mapping, empty}; all 8 call modes x "
                           "{memory_info, memory_full_info, memory_maps(False), memory_maps(True), memory_percent of all 10 memtypes + "
                           "an unknown one, memory_percent after a change of the total} x {roll-up, ENOENT fall-back, empty zombie}; "
